@@ -246,7 +246,10 @@ def check(P, R):
     for cont in [n for n in g.nodes if n.kind == 'stmt' and isinstance(n.ast, ast.Continue) and T._inside(n.ast, loop.body) and T.loops_of(n.ast) and T.loops_of(n.ast)[0] is loop]:
         if not any(g.can_reach(head, a_) for a_ in add_nodes):
             continue
-        guards = [(t, lab) for t in g.nodes if t.kind == 'test' and t.ast is not None for lab in ('true', 'false') if g.edge_dominates(t, lab, cont) and T._inside(t.ast, loop.body)]
+        ifs_ = enclosing(cont.ast, ast.If)
+        if ifs_ is not None and any(isinstance(c_, ast.Call) and isinstance(c_.func, ast.Name) and c_.func.id == 'add' for s_ in ifs_.body for c_ in ast.walk(s_)):
+            continue          # this branch hands the field on before it moves to the next one
+        guards = [(t, 'true') for t in (g.nodes_for(ifs_.test) if ifs_ is not None and T._inside(ifs_, loop.body) and any(s_ is cont.ast for s_ in ifs_.body) else [])]
         for (t, lab) in guards:
             te, neg = strip_not(t.ast)
             plain = isinstance(te, ast.Name) or (isinstance(te, ast.Call) and dotted(te.func) == 'len' and te.args and isinstance(te.args[0], ast.Name)) or \
@@ -571,11 +574,13 @@ def check_query_memo(P, R):
         if cp and cp[1] is ast.Eq and is_const(cp[2], 'QUERY_STRING'):
             for m_ in T.succ_by_label(t, 'true'):
                 if m_.kind == 'stmt' and m_.ast is not None:
-                    dropped |= {x.value for x in ast.walk(m_.ast) if isinstance(x, ast.Constant) and isinstance(x.value, str)}
+                    dropped |= _str_consts(oc, m_.ast)
     prefix = ''
     for x in ast.walk(oc.node):
-        if isinstance(x, ast.BinOp) and isinstance(x.op, ast.Add) and isinstance(x.left, ast.Constant) and isinstance(x.left.value, str):
-            prefix = x.left.value
+        if isinstance(x, ast.BinOp) and isinstance(x.op, ast.Add):
+            lv = T.module_value(oc, x.left)
+            if isinstance(lv, ast.Constant) and isinstance(lv.value, str):
+                prefix = lv.value
     if not keys:
         R.ob('C18.d', q, q.node, True, text='request.query is not memoised', nontrivial=False)
         return
@@ -585,3 +590,21 @@ def check_query_memo(P, R):
              f'request.query is memoised under `{k}`, but the change listener drops {sorted(prefix + d_ for d_ in dropped)} for QUERY_STRING: after '
              f'`request["QUERY_STRING"] = ...` (also on a copy of the request) the pairs of the first query keep being returned',
              why='parsing the query string of the request yields its pairs', key_extra='query-memo-key')
+
+
+def _str_consts(f, node):
+    """string constants of a statement, with names of module-level constant strings / tuples of strings resolved"""
+    out = set()
+    for x in ast.walk(node):
+        if isinstance(x, ast.Constant) and isinstance(x.value, str):
+            out.add(x.value)
+        elif isinstance(x, ast.Name):
+            try:
+                v = T.ceval(f, x)
+            except T.CannotEval:
+                continue
+            if isinstance(v, str):
+                out.add(v)
+            elif isinstance(v, (tuple, list, set, frozenset)):
+                out |= {e for e in v if isinstance(e, str)}
+    return out
